@@ -292,6 +292,12 @@ var errorPathTemplates = []struct {
 	{"try {\neachcb([1, 2, 3], func(x) {\nprobe(x)\nif x == 2 {\nthrow \"boom\"\n}\nprobe(10 + x)\n})\nprobe(\"after-each\")\n} catch e {\nprobe(\"caught\")\n} finally {\nprobe(\"finally\")\n}",
 		[]string{"(i 1)", "(i 11)", "(i 2)", vals.Encode("caught"), vals.Encode("finally")}, ""},
 	{"callcb0(func() {\nthrow \"boom\"\n})\nprobe(\"after\")", []string{}, "*"},
+	// a host function failing with an error value of an unhashable type, inside every loop form, under try / finally and a pending deferred call
+	{"func run() {\ndefer probe(\"deferred\")\ntry {\nfor i = 0; i < 2; i++ {\nprobe(\"round\")\npanicwithsliceerr()\n}\n} catch e {\nprobe(\"caught\")\n} finally {\nprobe(\"finally\")\n}\nprobe(\"after\")\n}\nrun()",
+		[]string{vals.Encode("round"), vals.Encode("caught"), vals.Encode("finally"), vals.Encode("after"), vals.Encode("deferred")}, ""},
+	{"try {\nfor x in [1, 2] {\npanicwithsliceerr()\n}\n} catch e {\nprobe(\"caught-slice-loop\")\n}\ntry {\nfor {\npanicwithsliceerr()\n}\n} catch e {\nprobe(\"caught-forever\")\n}\ntry {\nfor k, v in {\"a\": 1} {\npanicwithsliceerr()\n}\n} catch e {\nprobe(\"caught-map-loop\")\n}",
+		[]string{vals.Encode("caught-slice-loop"), vals.Encode("caught-forever"), vals.Encode("caught-map-loop")}, ""},
+	{"for i = 0; i < 3; i++ {\nprobe(i)\npanicwithsliceerr()\n}\nprobe(\"after\")", []string{"(i 0)"}, "*"},
 	{"callcb0(func() {\nprobe(1)\nnosuch()\nprobe(2)\n})\nprobe(\"after\")", []string{"(i 1)"}, "*"},
 	{"try {\ncallcb0(func() {\nx = [1][5]\n})\nprobe(\"after\")\n} catch e {\nprobe(\"caught\")\n}", []string{vals.Encode("caught")}, ""},
 	{"try {\nprobe(cbv(func(v) {\nthrow \"in-cbv\"\n}, 1))\n} catch e {\nprobe(\"caught\")\n}", []string{vals.Encode("caught")}, ""},
